@@ -82,7 +82,10 @@ SkipNodes(c) ==
                  \* last argument of a call do not go through format_expr)
                  "closurearg_if", "closurearg_block", "closurearg_loop", "callarg", "lastarg",
                  "tupleelem", "arrayelem", "binop", "retval", "fn_inner", "block_inner"}
-Spellings == {"skip", "depr", "cfg_skip", "cfg_depr", "cfg_cfg_skip", "cfg_multi"}
+Spellings == {"skip", "depr", "cfg_skip", "cfg_depr", "cfg_cfg_skip", "cfg_multi",
+              \* the skip attribute next to other attributes of the same node: one whose arguments
+              \* are not meta-item syntax (before / after it), a doc comment before it
+              "nb_before", "nb_after", "doc_before"}
 Cfgs == {"none", "m", "star"}
 
 (* ---- (a) recognition ----------------------------------------------------*)
@@ -92,6 +95,7 @@ OperIsSkip(sp) ==
   CASE sp \in {"skip", "depr"} -> TRUE
     [] sp \in {"cfg_skip", "cfg_depr", "cfg_cfg_skip"} -> TRUE
     [] sp = "cfg_multi" -> TRUE           \* cfg_attr(p, rustfmt::skip, allow(x))
+    [] sp \in {"nb_before", "nb_after", "doc_before"} -> TRUE   \* `any` attribute of the node
 DeclIsSkip(sp) == TRUE                    \* `directly or via cfg_attr, or the deprecated rustfmt_skip'
 
 (* ---- (b) scoping ---------------------------------------------------------*)
@@ -163,6 +167,8 @@ NameScenarios ==
 NodeScenarios ==
   (NDecl = 0) =>
   \A k \in SkipNodes(Last) : \A sp \in Spellings :
+    \* (a doc comment cannot stand between `return` and its operand: not Rust)
+    (k = "retval" /\ sp = "doc_before") \/
     PrintT(ToJson([tag |-> "SC", kind |-> "node", crated |-> crated, path |-> path, node |-> k, spelling |-> sp,
                    oper |-> OperIsSkip(sp), decl |-> DeclIsSkip(sp)]))
 (* ---- (d) whole-file opt-outs ------------------------------------------------*)
@@ -176,7 +182,10 @@ OptOuts == {"inner_skip", "inner_depr", "inner_cfg_skip", "disable_all", "ignore
             "skipped_mod_decl_nonroot", "skipped_mod_decl_inline", "skipped_mod_decl_cfg_if",
             \* other spellings of the @generated marker within the first lines of the file
             "generated_block1", "generated_blockend", "generated_aftercode", "generated_docinner",
-            "generated_star", "generated_line5"}
+            "generated_star", "generated_line5",
+            \* the opted-out child is reached through cfg_attr(.., path = ..): named twice, or named
+            \* once next to another file while it is also the declaration's default file
+            "inner_skip_twopaths", "inner_skip_path_default"}
 Modes == {"files", "check", "list", "stdout_diff"}
 OptOutScenarios ==
   (path = <<>> /\ crated = "none") =>
